@@ -313,8 +313,7 @@ def run_shard(ctx):
             ctx.count("getter:" + case["getter"])
             try:
                 run_case(case, ctx)
-                if ctx.evaluations % 401 == 0:
-                    ctx.sample(case)
+                ctx.maybe_sample(case, 401)
             except Abandon:
                 pass
         return t
